@@ -295,6 +295,21 @@ def run(run_, only_input=None):
             inputs.append(("b: " + lab, txt))
         for lab, txt in near_valid(gen, rng, n_c):
             inputs.append(("c: " + lab, txt))
+        # every PAIR of [defaults] numbers at boundary-ish values together (loops / arithmetic that combine two fields, e.g. folding
+        # semitones into octaves, only go wrong for particular combinations; single-field edits never reach them)
+        B = {"octave": [-128, -11, -10, -9, -1, 0, 1, 9, 10, 11, 127], "semitone": [-128, -127, -25, -24, -13, -12, -11, -1, 0, 1, 11, 12, 13, 24, 25, 127, 128],
+             "channel": [0, 1, 2, 15, 16, 17], "velocity": [0, 1, 64, 126, 127, 128]}
+        names = list(B)
+        pairs = [(x, y) for i, x in enumerate(names) for y in names[i + 1:]]
+        base = next((b for b in bases if b["mappings"]), bases[0])
+        for (x, y) in pairs:
+            combos = [(vx, vy) for vx in B[x] for vy in B[y]]
+            if quick and len(combos) > 70:
+                combos = rng.sample(combos, 70) + [(vx, vy) for vx in (B[x][0], B[x][-1], 10, -10) for vy in (12, -12, B[y][0], B[y][-1]) if vx in B[x] and vy in B[y]]
+            for (vx, vy) in combos:
+                d = pg.clone(base)
+                d[x], d[y] = vx, vy
+                inputs.append(("c: defaults pair %s/%s at boundary values" % (x, y), pg.print_toml(d, rng, omit_zero=False)))
     if only_input is not None and only_input[0] == "device":
         inputs = [("replay", only_input[1])]
     nchunks = max(1, (len(inputs) + 19999) // 20000)
@@ -360,6 +375,7 @@ def run(run_, only_input=None):
         body += "Definition F := Eval vm_compute in c09_failures T cs.\nPrint F.\n"
         items.append(("c09_t%d" % si, body))
     outs = coq_eval_many(items, timeout=1800) if items else []
+    class_mismatches = []
     for sh, o in zip(shards + tshards, outs):
         defs = extract_defs(o)
         if "F" not in defs or isinstance(defs["F"], tuple):
@@ -368,11 +384,21 @@ def run(run_, only_input=None):
             i = sh[j][0]
             lab, b = inputs[i]
             r = results[i]
-            run_.violation("ParseData returns %s where the model (guard over the decoder's outcome %s) %s (%s)" % (
-                "a configuration" if r["class"] == "ok" else "an error: " + r.get("err", "")[:120], r["dec_class"],
-                "returns an error" if 2 in codes else "returns a configuration" if 1 in codes else "crashes", lab),
-                {"call": "config.ParseData", "input_base64": base64.b64encode(b).decode(), "input": printable(b), "stream": lab,
-                 "verdict_codes": codes, "implementation": {"class": r["class"], "error": r.get("err", "")}})
+            # the implementation neither crashed nor hung here (those are reported above): C09 itself holds on this input; what no
+            # longer checks is the correspondence between ParseData's accept/reject decision and the model's (C10 is about that decision)
+            class_mismatches.append((i, codes))
+    for (i, codes) in class_mismatches[:2]:
+        lab, b = inputs[i]
+        r = results[i]
+        run_.violation("correspondence 'C09 view: ok / error class of ParseData == convert over the decoder's outcome' no longer checks (%d inputs): "
+                       "ParseData returns %s where the model (guard over the decoder's outcome %s) %s (%s)%s" % (
+                           len(class_mismatches), "a configuration" if r["class"] == "ok" else "an error: " + r.get("err", "")[:120], r["dec_class"],
+                           "returns an error" if 2 in codes else "returns a configuration" if 1 in codes else "crashes", lab,
+                           "" if run_.violations else "; no input of this run makes ParseData crash or hang"),
+                       {"theorem_or_correspondence": "C09 view (ok / error class), theorems C09_convert_total / C09_parse_total are about the model",
+                        "call": "config.ParseData", "input_base64": base64.b64encode(b).decode(), "input": printable(b), "stream": lab,
+                        "verdict_codes": codes, "implementation": {"class": r["class"], "error": r.get("err", "")}},
+                       no_input=True)
 
     # ---- hidi.toml through LoadHIDIConfig
     if only_input is not None:
